@@ -77,9 +77,31 @@ def getters(cls):
 
 # ----------------------------------------------------------------------------------------------
 # value generators
+_SPECIAL = ['0', 'None', 'null', 'false', '{}', '[]', ' ', '0.0']
+
+
+def fast_free_string(rng, maxlen=40):
+    """Same distribution of shapes as codecgen.free_string (empty, JSON-looking, 1000/5000/70000 characters, short
+    hostile), but a long string repeats a random chunk instead of drawing every character."""
+    m = rng.random()
+    if m < 0.08:
+        return ''
+    if m < 0.12:
+        return rng.choice(_SPECIAL)
+    if m < 0.16:
+        n = rng.choice([1000, 5000, 70000])
+        chunk = ''.join(rng.choice(G.FREE) for _ in range(rng.randrange(7, 60)))
+        return (chunk * (n // len(chunk) + 1))[:n]
+    return ''.join(rng.choice(G.FREE) for _ in range(rng.randrange(1, maxlen)))
+
+
+def use_fast_strings():
+    """Process-local: the codecgen generators draw their free text from fast_free_string (a check worker only)."""
+    G.free_string = fast_free_string
+
+
 def text(rng, maxlen=3000):
-    s = G.free_string(rng, 40)
-    return s[:maxlen]
+    return fast_free_string(rng, 40)[:maxlen]
 
 
 def text_nocomma(rng):
